@@ -1,5 +1,4 @@
 """Default resources for worlds."""
-import copy
 import json
 import functools
 import importlib
@@ -121,6 +120,15 @@ def populate_world_from_dict(world: World, world_dict: dict):
         world.create_entity(*components, entity_id=entity_id)
 
 
+def _copy_structure(data):
+    """Copy nested dictionaries and lists, sharing all other objects."""
+    if isinstance(data, dict):
+        return {key: _copy_structure(value) for key, value in data.items()}
+    if isinstance(data, list):
+        return [_copy_structure(value) for value in data]
+    return data
+
+
 class WorldFromFileTransformer:
     """Populate a :class:`World` from file.
 
@@ -154,7 +162,9 @@ class WorldFromFileTransformer:
         """Apply all transformers on the given world with given data."""
         for transformer in self.dict_transformers:
             passthrough_dict = data_dict
-            initial_dict = copy.deepcopy(passthrough_dict)
+            # Objects already substituted by previous transformers are
+            # shared, they may not support copying (modules, locks, ...)
+            initial_dict = _copy_structure(passthrough_dict)
 
             try:
                 # Only the passthrough dict is supposed to be modifiable
